@@ -79,9 +79,9 @@ Record labobs := mk_labobs {
   b_data_ok : bool;       (* every answer record (and negative proof SOA) is in the generated ground truth for that name/type *)
   b_chain_signed : bool } (* every RRset of the reply belongs to a zone signed up to the anchor *).
 
-(* what the client of an alias question got from edns + cache: rcode, AD, owners of the answer records (entry numbers), and
-   whether the question fell through to the next handler *)
-Record ochase := mk_ochase { oc_rcode : N; oc_ad : bool; oc_owners : list N; oc_miss : bool }.
+(* what the client of an alias question got from edns + cache: rcode, AD, owners of the answer records (entry numbers), the
+   entries the authority section's records came from, and whether the question fell through to the next handler *)
+Record ochase := mk_ochase { oc_rcode : N; oc_ad : bool; oc_owners : list N; oc_auth : list N; oc_miss : bool }.
 
 Inductive case :=
   (* dnssec.VerifyDSWithWork *)
@@ -180,15 +180,18 @@ Definition check_case (c : case) : bool :=
   | CaseChase q st qn o =>
       let '(path, complete) := walk st 16 qn [] in
       negb (oc_miss o) &&
-      if complete
-      then (oc_rcode o =? 0) && nlist_eqb (oc_owners o) path && Bool.eqb (oc_ad o) (served_ad q st path)
-      else (* an alias loop: refused, or the records gathered before the revisit — never more than the path holds *)
+      match chase_reply q st 16 qn with
+      | Some r => (* the chain ends: in data, or in a denial that brings the rcode and the authority section *)
+          (oc_rcode o =? cr_rcode r) && nlist_eqb (oc_owners o) (cr_answer r) && nlist_eqb (oc_auth o) (cr_auth r) &&
+          Bool.eqb (oc_ad o) (cr_ad r)
+      | None => (* an alias loop: refused, or the records gathered before the revisit — never more than the path holds *)
            ((oc_rcode o =? 2) && nlist_eqb (oc_owners o) [] && negb (oc_ad o)) ||
            ((* an alias onto the question's own name, in whatever spelling, is refused outright (additionalAnswer's first
                comparison, case-folded since a4faf69); a longer loop may hand back the records gathered before the revisit *)
-            negb (self_alias st qn) &&
+            negb (self_alias st qn) && nlist_eqb (oc_auth o) [] &&
             (oc_rcode o =? 0) && match oc_owners o with [] => false | _ => true end && is_prefix (oc_owners o) path &&
             Bool.eqb (oc_ad o) (served_ad q st (oc_owners o)))
+      end
   | CaseFiled v cd p0 p1 =>
       let '(m0, m1) := file_verdict v cd in
       match m0, p0 with Some a, Some b => Bool.eqb a b | None, None => true | _, _ => false end &&
@@ -338,10 +341,12 @@ Definition spec_case (c : case) : bool :=
       (* AD toward the client only if EVERY entry the reply was composed from was validated *)
       if o then forallb (fun b => b) hops && negb (q_cd q) && (q_do q || q_ad q) else true
   | CaseChase q st _ o =>
-      (* AD toward the client only if EVERY entry a record of the reply came from was filed with AD, the client did not set
-         CD and asked with DO or AD — read off the reply, without walking the store *)
-      if oc_ad o then forallb (fun n => match cs_find st n with Some e => ce_ad e | None => false end) (oc_owners o) &&
-                      negb (q_cd q) && (q_do q || q_ad q) && (oc_rcode o =? 0)
+      (* AD toward the client only if EVERY entry a record of the reply came from — answer OR authority section — was filed
+         with AD, the client did not set CD and asked with DO or AD; an authenticated NXDOMAIN shows the denial it rests on —
+         read off the reply, without walking the store *)
+      if oc_ad o then forallb (fun n => match cs_find st n with Some e => ce_ad e | None => false end) (oc_owners o ++ oc_auth o) &&
+                      negb (q_cd q) && (q_do q || q_ad q) &&
+                      ((oc_rcode o =? 0) || ((oc_rcode o =? 3) && match oc_auth o with [] => false | _ => true end))
       else true
   | CaseFiled v cd p0 p1 =>
       (* a validating (CD=0) reader only ever meets a bit the resolver set for a CD=0 request *)
